@@ -15,8 +15,8 @@ from harness import pipe, c06, c09, c15
 FUNCTIONS = ['bycycle.plts.cyclepoints.plot_cyclepoints_df', 'bycycle.plts.cyclepoints.plot_cyclepoints_array',
              'bycycle.plts.burst.plot_burst_detect_summary', 'bycycle.plts.burst.plot_burst_detect_param',
              'bycycle.objs.fit.Bycycle.plot', 'bycycle.utils.dataframes.limit_df', 'bycycle.utils.timeseries.limit_signal']
-BOUNDS = {'quick': 'cyclepoint plots: 1..2 cycles on N <= 7; burst summary / parameter panels: 1..2 cycles on N <= 7 (3 cycles on N = 8 for the summary); fs in {1, 2}; x-limits None or every window on the sample grid; both centrings; plot_only_result / interp / the four kind switches',
-          'thorough': 'N <= 9, up to 3 cycles everywhere, fs in {1, 2, 0.5, 4}'}
+BOUNDS = {'quick': 'floating-point kernels: fs in {1000, 250, 512}, sample index < 2^14; cyclepoint plots: 1..2 cycles on N <= 7; burst summary / parameter panels: 1..2 cycles on N <= 7 (3 cycles on N = 8 for the summary); fs in {1, 2}; x-limits None or every window on the sample grid; both centrings; plot_only_result / interp / the four kind switches',
+          'thorough': 'floating-point kernels: fs in {1000, 500, 250, 100, 256, 512, 128}, sample index < 2^20; N <= 9, up to 3 cycles everywhere, fs in {1, 2, 0.5, 4}'}
 OUTSIDE = 'what matplotlib rasterises; sampling rates that are not powers of two are covered by the floating-point kernels only (index < 2^20, listed fs)'
 STUBS = ['neurodsp.plts.plot_time_series / plot_bursts, matplotlib axes (axvspan) -> recorders', 'scipy.stats.zscore -> fresh symbolic samples']
 ASSUMPTIONS = ['tables obey the C01 invariant', '"strictly inside the view" = sample index strictly between the first and the last plotted sample; a cycle is "entirely inside the view" when all its samples are plotted']
@@ -57,13 +57,14 @@ def configs(tier):
             for xl in ('none', 'grid'):
                 for interp in (True, False):
                     out.append({'fn': 'param', 'rows': rows, 'n': n, 'centre': centre, 'xlim': xl, 'interp': interp, 'fs': 1})
-    out.append({'fn': 'fp'})
+    from engine import fpkern
+    out += fpkern.configs(tier)
     return out
 
 
 def cost(cfg):
     if cfg['fn'] == 'fp':
-        return 10 ** 9
+        return 10 ** 6 * (1 + cfg.get('k', 0))
     return (3.0 ** cfg['n']) * (cfg['n'] ** 2 / 2 if cfg['xlim'] == 'grid' else 1) * (6 if cfg['fn'] == 'summary' else 1)
 
 
@@ -153,7 +154,7 @@ def cp_groups(data, centre, extrema=True, zerox=True):
 
 def run(ctx, cfg):
     if cfg['fn'] == 'fp':
-        return run_fp(ctx)
+        return run_fp(ctx, cfg)
     np, pd = ctx.np, ctx.pd
     fn, rows, n, centre, fs = cfg['fn'], cfg['rows'], cfg['n'], cfg['centre'], cfg['fs']
     x = [ctx.real('x%d' % i) for i in range(n)]
@@ -302,13 +303,10 @@ def param_obligations(ctx, calls, data, centre, param, thresh, fs, a, b, has_xli
 
 # --------------------------------------------------------------------------- part 2: floating point
 
-def run_fp(ctx):
-    """Floating-point kernels: only on the symbolic side (the real side re-checks the reported
-    concrete numbers by plain evaluation)."""
+def run_fp(ctx, cfg):
+    """One floating-point kernel x sampling rate x binade of sample indices (engine/fpkern.py)."""
     from engine import fpkern
     if ctx.mode == 'real':
-        for k in sorted(ctx.values):
-            pass
-        fpkern.replay(ctx)
-        return
-    fpkern.check(ctx)
+        fpkern.replay(ctx, cfg)
+    else:
+        fpkern.check(ctx, cfg)
